@@ -14,5 +14,27 @@ def put(s, tag, body):
     return s.replace(tag.upper() + '_PLACEHOLDER', block)
 s = put(s, 'status_table', status)
 s = put(s, 'seeded_table', seeded)
+# per-property claims, read from the contract modules without importing them
+import ast, json
+claims = []
+for line in open(os.path.join(ROOT, 'properties.jsonl')):
+    pr = json.loads(line)
+    pid = pr['id']
+    f = os.path.join(ROOT, 'contracts', pid.lower() + '.py')
+    meta, notp = {}, []
+    if os.path.exists(f):
+        for n in ast.parse(open(f).read()).body:
+            if isinstance(n, ast.Assign) and isinstance(n.targets[0], ast.Name):
+                try:
+                    if n.targets[0].id == 'MANIFEST':
+                        meta = ast.literal_eval(n.value)
+                    elif n.targets[0].id == 'NOT_PROVED':
+                        notp = ast.literal_eval(n.value)
+                except Exception:
+                    pass
+    claims.append('**%s — %s.** *Proved:* %s *Trusted / assumed:* %s%s' % (
+        pid, pr['title'], meta.get('text', '-'), meta.get('note', '-'),
+        (' *Not decided (verbatim clauses / limits):* ' + ' · '.join(str(x) for x in notp)) if notp else ''))
+s = put(s, 'claims', '\n\n'.join(claims))
 open(p, 'w').write(s)
 print('DESIGN.md tables updated')
